@@ -124,6 +124,15 @@ func NewRouterInfo(
 ) (*RouterInfo, error) {
 	log.Debug("Creating new RouterInfo")
 
+	if routerIdentity == nil {
+		return nil, oops.Errorf("router identity is nil")
+	}
+	for i, address := range addresses {
+		if address == nil {
+			return nil, oops.Errorf("router address %d is nil", i)
+		}
+	}
+
 	publishedDate, err := createPublishedDate(publishedTime)
 	if err != nil {
 		return nil, err
